@@ -235,6 +235,8 @@ pub mod second_chance;
 pub mod sharded;
 mod stack;
 mod trigger;
+#[cfg(kismet_verif)]
+pub mod verif_hooks;
 
 pub use readonly::ReadOnlyCache;
 pub use readonly::ReadOnlyCacheBuilder;
